@@ -54,10 +54,11 @@ CFG = dict(
                          "drop:notification-no-nbit": 1600, "drop:cease-nbit": 800,
                          "established:after-retention:gr-renegotiated": 2400, "established:after-retention:no-gr": 2000,
                          "obs:stale-paths-seen": 12000, "obs:llgr-stale-paths-seen": 3000}),
-    quick=[e2("l1x", _T, 8, 120, part="l1x", depth=5, nshards=8),
-           e2("l1r", _T, 2, 60, part="l1r", count=8000),
-           e2("l2", _T, 4, 60, part="l2", count=1500)],
-    thorough=[e2("l1x", _T, 16, 900, part="l1x", depth=6, nshards=16),
-              e2("l1r", _T, 8, 300, part="l1r", count=100000),
-              e2("l2", _T, 16, 300, part="l2", count=5000)],
+    # l2 first: the driver keeps the first witness per signature, and an end-to-end witness is the most convincing one
+    quick=[e2("l2", _T, 4, 60, part="l2", count=1500),
+           e2("l1x", _T, 8, 120, part="l1x", depth=5, nshards=8),
+           e2("l1r", _T, 2, 60, part="l1r", count=8000)],
+    thorough=[e2("l2", _T, 16, 300, part="l2", count=5000),
+              e2("l1x", _T, 16, 900, part="l1x", depth=6, nshards=16),
+              e2("l1r", _T, 8, 300, part="l1r", count=100000)],
 )
